@@ -240,6 +240,16 @@ func (s *Sched) abortNext(self *thread) {
 
 func cur() *Sched { return active.Load() }
 
+// StmtYields switches the statement-level scheduling points (inserted by the source rewriter) on or off.
+var StmtYields = true
+
+// StmtYield is the scheduling point the rewriter puts before every statement of selected files.
+func StmtYield() {
+	if StmtYields {
+		Yield()
+	}
+}
+
 // Yield is an explicit scheduling point.
 func Yield() {
 	if s := cur(); s != nil {
